@@ -61,7 +61,9 @@ def attribute(run, line, verdict):
         return "C01+C06+C11"      # the caller or another unit is lost / the stream cannot be joined after set_main_sched
     if scn in ("ryt", "ytrace"):
         return "C02+C11"          # resume_yield_to with the yielder's pool served by other streams
-    if scn in ("xjoin", "stacked"):
+    if scn == "stacked":
+        return "C06+C01"          # a unit of a stacked scheduler's pool is lost / the stream is not joinable
+    if scn == "xjoin":
         return "C06"
     if scn == "cancelmix":
         return "C12+C03"          # cancellation while joining / being joined
